@@ -65,6 +65,14 @@ def run_case(case):
         from checks import c01
         spec = c01.make_spec({"id": case["id"], "fam": "soc",
                               "idx": case["idx"], "seed": case["seed"]})
+    if case["idx"] % 5 == 2 and spec["obj"]["kind"] != "none":
+        # undefined / infinite / beyond-barrier objective values around x0:
+        # what the callback is shown (and what a stop returns) are the RAW
+        # values of the best point
+        spec["faults"] = [{"target": "obj", "val": str(rng.choice(
+            ["nan", "inf", "huge", "-huge"])),
+            "when": {"idx": sorted(set(int(v) for v in rng.integers(
+                0, 8, int(rng.integers(1, 5)))))}}]
     cb = {"conv": str(rng.choice(["kw", "pos"])),
           "form": str(rng.choice(["def", "lambda", "object", "partial",
                                   "unhashable"]))}
